@@ -48,6 +48,7 @@ type result struct {
 	elapsed  time.Duration
 	hung     bool
 	accepted bool
+	neither  string // set when a call came back with neither a value nor an error
 	stack    uint64 // growth of goroutine stack memory across the call
 }
 
@@ -71,8 +72,13 @@ func exercise(c Case) result {
 			p, _ = icc.NewProfileReader(bytes.NewReader(c.Data)).ReadProfile()
 		} else {
 			r.stage = "Load"
-			md, _, err := ld.Loaders[c.Target](bytes.NewReader(c.Data))
+			md, strm, err := ld.Loaders[c.Target](bytes.NewReader(c.Data))
 			r.accepted = err == nil
+			if md == nil && err == nil {
+				r.neither = "Load returned nil metadata and a nil error"
+			} else if strm == nil {
+				r.neither = "Load returned a nil stream"
+			}
 			if md != nil {
 				r.stage = "ICCProfile"
 				p, _ = md.ICCProfile()
@@ -155,6 +161,9 @@ func check(c Case) (kind, what string, r result) {
 		return k + "hang", fmt.Sprintf("%s on %d input bytes did not return within %v (stage %s) (%s)", c.Target, len(c.Data), timeBudget(len(c.Data)), r.stage, c.Desc), r
 	case r.panicMsg != "":
 		return k + "panic", fmt.Sprintf("panic escaped to the caller at stage %s: %s (%s)", r.stage, r.panicMsg, c.Desc), r
+	case r.neither != "":
+		// "returns normally with a value or an error": a caller that checks err and then uses the value crashes
+		return k + "neither", fmt.Sprintf("%s: %s (%s)", c.Target, r.neither, c.Desc), r
 	}
 	// stack memory counts as memory: parsing must not keep a frame (or more) per input byte
 	if sl := uint64(8<<20) + 4*uint64(len(c.Data)); r.stack > sl {
@@ -456,7 +465,7 @@ func TestC09(t *testing.T) {
 	}
 	debug.SetGCPercent(400)
 	mut.Full = ev.Thorough()
-	ev.Rule("(a) field matrix: every length/count/offset/dimension/type field in the field map of every seed (repository images and profile, grammar-built files incl. multi-record mluc, hostile mini-files; ICC fields of embedded profiles included) x ~40 hostile values (0,1,2,7,8,9,11,12,13,127,128,255,256,65535,65536,2^24-1,2^24,2^31-1,2^31,2^32-1, field+-1, field+-12, remaining length +-1, values making offset+size wrap 2^32), singly and in rapid-chosen pairs; (b) rapid structure-aware mutation (1-4 operators: set-field, truncate, duplicate/drop/swap chunk, splice two files, flip bits, change a type tag) of generated valid files and seeds; (a4) v2 textDescription tags built field by field (ASCII count x Unicode count incl. counts whose doubling wraps 2^32 x units present x ScriptCode count); (a5) payloads that are not profiles but resemble something the library knows (the marker of another container's profile segment, a bare header, another image file, a zlib stream, runs of 0xFF / zeros), cut at every length and embedded in every container; (c) every truncation of every seed <= 8 KiB (quick, seeds > 2500 bytes: structure boundaries +-2 and every fifth position); (d) amplifier inputs (maximal-ratio deflate, many tags, many mluc records, 255 JPEG chunks). Entry chain per input: Load -> ICCProfile -> ICCProfileData -> ICCProfile again -> Description twice (or ReadProfile -> Description twice). Oracle: no escaping panic, TotalAlloc delta <= 1 MiB + B*len(input), return within 1 s + 1 s/MiB (exceeded three times in a row; the slowest conforming call observed uses about 1-5 % of it). non-trivial = distinct mutated input whose signature is still accepted by the targeted entry point")
+	ev.Rule("(a) field matrix: every length/count/offset/dimension/type field in the field map of every seed (repository images and profile, grammar-built files incl. multi-record mluc, hostile mini-files; ICC fields of embedded profiles included) x ~40 hostile values (0,1,2,7,8,9,11,12,13,127,128,255,256,65535,65536,2^24-1,2^24,2^31-1,2^31,2^32-1, field+-1, field+-12, remaining length +-1, values making offset+size wrap 2^32), singly and in rapid-chosen pairs; (b) rapid structure-aware mutation (1-4 operators: set-field, truncate, duplicate/drop/swap chunk, splice two files, flip bits, change a type tag) of generated valid files and seeds; (a4) v2 textDescription tags built field by field (ASCII count x Unicode count incl. counts whose doubling wraps 2^32 x units present x ScriptCode count); (a5) payloads that are not profiles but resemble something the library knows (the marker of another container's profile segment, a bare header, another image file, a zlib stream, runs of 0xFF / zeros), cut at every length and embedded in every container; (c) every truncation of every seed <= 8 KiB (quick, seeds > 2500 bytes: structure boundaries +-2 and every fifth position); (d) amplifier inputs (maximal-ratio deflate, many tags, many mluc records, 255 JPEG chunks). Entry chain per input: Load -> ICCProfile -> ICCProfileData -> ICCProfile again -> Description twice (or ReadProfile -> Description twice). Oracle: no escaping panic, never (nil metadata, nil error) nor a nil stream from Load, TotalAlloc delta <= 1 MiB + B*len(input), return within 1 s + 1 s/MiB (exceeded three times in a row; the slowest conforming call observed uses about 1-5 % of it). non-trivial = distinct mutated input whose signature is still accepted by the targeted entry point")
 	ev.Set("alloc_bound", map[string]any{"A_bytes": boundA, "B_per_input_byte": boundB})
 	ev.Assume("allocation is observed as the runtime.MemStats.TotalAlloc delta around the call (process-wide; a violation is re-measured once); absence over all byte strings is not established")
 	rc := &recorder{bad: map[string]bool{}}
